@@ -793,7 +793,7 @@ func execVerifyDS(f []string) vlib.Res {
 	}); o != "" {
 		return vlib.Res{Impl: "panic", Oracle: o, Tags: "nt,panic"}
 	}
-	return vlib.Res{Impl: fmt.Sprintf("unsup=%s ok=%s anch=%s w=%s:%d", vlib.B(unsup), vlib.B(got), anch, wres, gov.begins), Oracle: or,
+	return vlib.Res{Impl: fmt.Sprintf("unsup=%s ok=%s err=%s anch=%s w=%s:%d", vlib.B(unsup), vlib.B(got), errEnum(err), anch, wres, gov.begins), Oracle: or,
 		Tags: joinTags("nt", tag, tt, "err:"+errEnum(err), "dsgov:"+wres)}
 }
 
